@@ -158,7 +158,8 @@ def finish(out: Outcome, level="model_checking", technique=""):
         "violations": len(new),
     }
     os.makedirs(EVIDENCE, exist_ok=True)
-    with open(os.path.join(EVIDENCE, out.prop + ".json"), "w") as fh:
+    # (developer runs restricted with --only may divert their evidence so the registered file is not clobbered)
+    with open(os.path.join(EVIDENCE, out.prop + os.environ.get("VERIF_EVIDENCE_SUFFIX", "") + ".json"), "w") as fh:
         json.dump(ev, fh, indent=1, sort_keys=False)
     for f in known_hit:
         log("KNOWN-FINDING: property=%s %s [%s]" % (out.prop, open_keys[f.key].get("what", f.what), f.key))
